@@ -521,8 +521,8 @@ def _items_iter(ctx, res, iter_ty, alloc_fn, spec, struct_name, fieldmap, what):
     for n in walk_no_nested_fn(body):
         if n.k == "let" and n["pat"].k == "p_ident" and n.get("init") is not None:
             init = strip(n["init"])
-            if init.k == "binary" and init["op"] == "*" and (int_value(init["r"]) is not None) != (int_value(init["l"]) is not None):
-                lits["stride"] = (n, int_value(init["r"]) if int_value(init["r"]) is not None else int_value(init["l"]))
+            if init.k == "binary" and init["op"] == "*" and (int_value(init["r"], ctx.ast, R) is not None) != (int_value(init["l"], ctx.ast, R) is not None):
+                lits["stride"] = (n, int_value(init["r"], ctx.ast, R) if int_value(init["r"], ctx.ast, R) is not None else int_value(init["l"], ctx.ast, R))
                 lits["stride_name"] = n["pat"]["name"]
     if "stride" not in lits:
         res.fail(what + "/stride", nxt, "item offset `i * %d` not found" % size)
@@ -536,7 +536,7 @@ def _items_iter(ctx, res, iter_ty, alloc_fn, spec, struct_name, fieldmap, what):
         g = strip(r_["index"])
         if g["from"] is not None and g["to"] is not None and up(strip(g["from"])) == lits["stride_name"]:
             to = strip(g["to"])
-            if to.k == "binary" and to["op"] == "+" and up(strip(to["l"])) == lits["stride_name"] and int_value(to["r"]) == size:
+            if to.k == "binary" and to["op"] == "+" and up(strip(to["l"])) == lits["stride_name"] and int_value(to["r"], ctx.ast, R) == size:
                 okr = True
             else:
                 res.fail(what + "/slice", r_, "item slice must be [off, off + %d); got `%s`" % (size, up(g)))
@@ -593,7 +593,7 @@ def _items_iter(ctx, res, iter_ty, alloc_fn, spec, struct_name, fieldmap, what):
     for node, sz in _buffer_size(af):
         s = strip_cast(sz)
         if s.k == "binary" and s["op"] == "*":
-            vals = [v for v in (int_value(s["l"]), int_value(s["r"])) if v is not None]
+            vals = [v for v in (int_value(s["l"], ctx.ast, R), int_value(s["r"], ctx.ast, R)) if v is not None]
             if len(vals) == 1:
                 if vals[0] == size:
                     ok = True
